@@ -474,3 +474,690 @@ var ruleMatchAnchor = &Rule{
 		return obs
 	},
 }
+
+// PANIC/P9: a configuration map is created before it is written.
+//
+// Writing into a nil map panics; reading from one does not, which is why a table that is only created on some paths of
+// the settings code survives every test that never takes the other path. Definite assignment, interprocedurally: the
+// state is the set of map-typed fields of common.GlobalConfig that have certainly been assigned a non-nil value; a store
+// sets the bit (a store of nil clears it), a call adds the callee's must-assign summary (intersection over its
+// returns), a map update on a field whose bit is clear is a violation. Start state: what the two start-up functions
+// main() calls assign on every path; the initialize handler is walked from there, every other handler from the state
+// at initialize's successful returns (a client may not send anything else before). Callees are walked in the caller's
+// state (memoised on function × state), so a writer is judged in each state it can be reached in.
+type p9Engine struct {
+	c       *Ctx
+	fields  []*types.Var
+	bit     map[*types.Var]uint64
+	must    map[*ssa.Function]uint64
+	mustOK  map[*ssa.Function]uint64
+	active  map[*ssa.Function]bool
+	seen    map[string]bool
+	hasW    map[*ssa.Function]bool
+	results map[string]*Ob
+	order   []string
+}
+
+func (e *p9Engine) cfgField(addr ssa.Value) (*types.Var, bool) {
+	fa, ok := addr.(*ssa.FieldAddr)
+	if !ok {
+		return nil, false
+	}
+	p, n := namedPkgName(fa.X.Type())
+	if n != "GlobalConfig" || p != modPath+"/langserver/check/common" {
+		return nil, false
+	}
+	fv := fieldOf(fa)
+	if _, isMap := fv.Type().Underlying().(*types.Map); !isMap {
+		return nil, false
+	}
+	return fv, true
+}
+
+func (e *p9Engine) bitOf(fv *types.Var) uint64 {
+	if b, ok := e.bit[fv]; ok {
+		return b
+	}
+	if len(e.fields) >= 64 {
+		return 0
+	}
+	b := uint64(1) << uint(len(e.fields))
+	e.fields = append(e.fields, fv)
+	e.bit[fv] = b
+	return b
+}
+
+// run walks f from state in; check = report map updates on unassigned fields. It returns the state at the returns
+// (intersection; only returns whose trailing error result is nil when okOnly is set).
+func (e *p9Engine) run(f *ssa.Function, in uint64, check bool, okOnly bool) uint64 {
+	if len(f.Blocks) == 0 {
+		return in
+	}
+	const top = ^uint64(0)
+	inS := make([]uint64, len(f.Blocks))
+	outS := make([]uint64, len(f.Blocks))
+	for i := range inS {
+		inS[i], outS[i] = top, top
+	}
+	inS[0] = in
+	transfer := func(b *ssa.BasicBlock, st uint64, report bool) uint64 {
+		for _, ins := range b.Instrs {
+			switch x := ins.(type) {
+			case *ssa.Store:
+				if fv, ok := e.cfgField(x.Addr); ok {
+					if k, isC := x.Val.(*ssa.Const); isC && k.Value == nil {
+						st &^= e.bitOf(fv)
+					} else {
+						st |= e.bitOf(fv)
+					}
+				}
+			case *ssa.MapUpdate:
+				if ld, ok := x.Map.(*ssa.UnOp); ok {
+					if fv, ok := e.cfgField(ld.X); ok && report {
+						key := "PANIC/P9:" + fnKey(f) + ":" + fv.Name()
+						ob := e.results[key]
+						if ob == nil {
+							ob = &Ob{Key: key, Site: e.c.Pos(x.Pos()), Verdict: OK}
+							e.results[key] = ob
+							e.order = append(e.order, key)
+						}
+						if st&e.bitOf(fv) == 0 && ob.Verdict == OK {
+							ob.Verdict = VIOLATION
+							ob.Site = e.c.Pos(x.Pos())
+							ob.Note = "GlobalConfig." + fv.Name() + " is written here, and on some path from a request entry it has not been created yet: assignment to an entry of a nil map panics"
+						}
+					}
+				}
+			case ssa.CallInstruction:
+				g := x.Common().StaticCallee()
+				if g == nil || !e.c.IsModFn(g) || len(g.Blocks) == 0 {
+					continue
+				}
+				if report && e.hasW[g] {
+					k := fmt.Sprintf("%s@%x", fnKey(g), st)
+					if !e.seen[k] {
+						e.seen[k] = true
+						e.run(g, st, true, false)
+					}
+				}
+				if _, isCall := x.(*ssa.Call); isCall {
+					st |= e.mustAssign(g)
+				}
+			}
+		}
+		return st
+	}
+	for changed := true; changed; {
+		changed = false
+		for i, b := range f.Blocks {
+			st := inS[i]
+			if i != 0 {
+				st = top
+				for _, p := range b.Preds {
+					po := outS[p.Index]
+					if po != top {
+						po |= e.okEdgeGain(p, b)
+					}
+					st &= po
+				}
+			}
+			o := transfer(b, st, false)
+			if st != inS[i] || o != outS[i] {
+				inS[i], outS[i] = st, o
+				changed = true
+			}
+		}
+	}
+	ret := top
+	any := false
+	for i, b := range f.Blocks {
+		if inS[i] == top && i != 0 {
+			continue // unreachable
+		}
+		if check {
+			transfer(b, inS[i], true)
+		}
+		r, ok := b.Instrs[len(b.Instrs)-1].(*ssa.Return)
+		if !ok {
+			continue
+		}
+		if okOnly && len(r.Results) > 0 {
+			last := r.Results[len(r.Results)-1]
+			if types.Identical(last.Type(), types.Universe.Lookup("error").Type()) {
+				if k, isC := last.(*ssa.Const); !isC || k.Value != nil {
+					continue
+				}
+			}
+		}
+		ret &= outS[i]
+		any = true
+	}
+	if !any {
+		return in
+	}
+	return ret
+}
+
+// okEdgeGain: on the edge on which the error result of a call is known to be nil, what the callee assigns on its
+// successful returns is assigned (`if err := g.ReadConfig(...); err != nil { return err }`).
+func (e *p9Engine) okEdgeGain(p, b *ssa.BasicBlock) uint64 {
+	iff, ok := p.Instrs[len(p.Instrs)-1].(*ssa.If)
+	if !ok || len(p.Succs) != 2 || p.Succs[0] == p.Succs[1] {
+		return 0
+	}
+	bo, ok := iff.Cond.(*ssa.BinOp)
+	if !ok || (bo.Op != token.NEQ && bo.Op != token.EQL) {
+		return 0
+	}
+	v := bo.X
+	if k, isC := bo.Y.(*ssa.Const); !isC || k.Value != nil {
+		if k2, isC2 := bo.X.(*ssa.Const); !isC2 || k2.Value != nil {
+			return 0
+		}
+		v = bo.Y
+	}
+	nilEdge := p.Succs[0]
+	if bo.Op == token.NEQ {
+		nilEdge = p.Succs[1]
+	}
+	if nilEdge != b {
+		return 0
+	}
+	var call *ssa.Call
+	switch x := v.(type) {
+	case *ssa.Call:
+		call = x
+	case *ssa.Extract:
+		if c2, ok := x.Tuple.(*ssa.Call); ok && x.Index == c2.Call.Signature().Results().Len()-1 {
+			call = c2
+		}
+	}
+	if call == nil {
+		return 0
+	}
+	g := call.Call.StaticCallee()
+	if g == nil || !e.c.IsModFn(g) || len(g.Blocks) == 0 {
+		return 0
+	}
+	if m, ok := e.mustOK[g]; ok {
+		return m
+	}
+	if e.active[g] {
+		return 0
+	}
+	e.active[g] = true
+	m := e.run(g, 0, false, true)
+	delete(e.active, g)
+	e.mustOK[g] = m
+	return m
+}
+
+func (e *p9Engine) mustAssign(g *ssa.Function) uint64 {
+	if m, ok := e.must[g]; ok {
+		return m
+	}
+	if e.active[g] {
+		return 0
+	}
+	e.active[g] = true
+	m := e.run(g, 0, false, false)
+	delete(e.active, g)
+	e.must[g] = m
+	return m
+}
+
+var rulePanicP9 = &Rule{
+	Name:    "PANIC/P9-config-map-created",
+	NeedSSA: true,
+	Text:    "definite assignment of the map-typed fields of common.GlobalConfig, interprocedurally (forward must-analysis with callee must-assign summaries, callees walked in the caller's state): on every path from the initialize handler — started in the state the start-up functions called by main() establish — and from every other handler — started in the state at initialize's successful returns — a map update on such a field is preceded by an assignment of a non-nil map to it (no diagnostic or query may take the server down)",
+	Run: func(c *Ctx) []Ob {
+		e := &p9Engine{c: c, bit: map[*types.Var]uint64{}, must: map[*ssa.Function]uint64{}, mustOK: map[*ssa.Function]uint64{}, active: map[*ssa.Function]bool{}, seen: map[string]bool{}, hasW: map[*ssa.Function]bool{}, results: map[string]*Ob{}}
+		hs, err := c.Handlers()
+		if err != nil {
+			return []Ob{{Key: "PANIC/P9:slots", Verdict: UNDECIDED, Note: err.Error()}}
+		}
+		commonP := modPath + "/langserver/check/common"
+		start := []*ssa.Function{c.SSAFunc(commonP, "", "GlobalConfigDefautInit"), c.SSAFunc(commonP, "GlobalConfig", "IntialGlobalVar")}
+		mainFn := c.SSAFunc(modPath, "", "main")
+		if start[0] == nil || start[1] == nil || mainFn == nil {
+			return []Ob{{Key: "PANIC/P9:slots", Verdict: UNDECIDED, Note: "slot unresolved: main / GlobalConfigDefautInit / GlobalConfig.IntialGlobalVar"}}
+		}
+		called := map[*ssa.Function]bool{}
+		for _, b := range mainFn.Blocks {
+			for _, ins := range b.Instrs {
+				if ci, ok := ins.(ssa.CallInstruction); ok {
+					if g := ci.Common().StaticCallee(); g != nil {
+						called[g] = true
+					}
+				}
+			}
+		}
+		if !called[start[0]] || !called[start[1]] {
+			return []Ob{{Key: "PANIC/P9:slots", Site: c.Pos(mainFn.Pos()), Verdict: UNDECIDED, Note: "main() no longer calls both start-up functions directly"}}
+		}
+		// functions from which a map update on a configuration field can be reached through static calls
+		direct := map[*ssa.Function]bool{}
+		callers := map[*ssa.Function][]*ssa.Function{}
+		for _, f := range c.ModFns() {
+			for _, b := range f.Blocks {
+				for _, ins := range b.Instrs {
+					switch x := ins.(type) {
+					case *ssa.MapUpdate:
+						if ld, ok := x.Map.(*ssa.UnOp); ok {
+							if _, ok := e.cfgField(ld.X); ok {
+								direct[f] = true
+							}
+						}
+					case ssa.CallInstruction:
+						if g := x.Common().StaticCallee(); g != nil {
+							callers[g] = append(callers[g], f)
+						}
+					}
+				}
+			}
+		}
+		var work []*ssa.Function
+		for f := range direct {
+			e.hasW[f] = true
+			work = append(work, f)
+		}
+		for len(work) > 0 {
+			f := work[len(work)-1]
+			work = work[:len(work)-1]
+			for _, p := range callers[f] {
+				if !e.hasW[p] {
+					e.hasW[p] = true
+					work = append(work, p)
+				}
+			}
+		}
+		st := e.mustAssign(start[0]) | e.mustAssign(start[1])
+		var initH *ssa.Function
+		for _, h := range hs {
+			if h.Method == "initialize" {
+				initH = h.Fn
+			}
+		}
+		if initH == nil {
+			return []Ob{{Key: "PANIC/P9:slots", Verdict: UNDECIDED, Note: "slot unresolved: initialize handler"}}
+		}
+		after := e.run(initH, st, true, true)
+		for _, h := range hs {
+			if h.Fn != initH {
+				e.run(h.Fn, after, true, false)
+			}
+		}
+		var obs []Ob
+		sort.Strings(e.order)
+		for _, k := range e.order {
+			obs = append(obs, *e.results[k])
+		}
+		c.Stats["config_map_writers_checked"] = len(e.order)
+		obs = append(obs, floor("PANIC/P9-config-map-created", "(function, configuration map) writers reached from the handlers", len(e.order), 6))
+		return obs
+	},
+}
+
+// ---------------------------------------------------------------------------------------------
+// LOCK/L7: every mutex of the module is released on every path
+
+func mutexCall(ins ssa.Instruction, names ...string) (recv string, ok bool) {
+	var com *ssa.CallCommon
+	switch x := ins.(type) {
+	case *ssa.Call:
+		com = &x.Call
+	case *ssa.Defer:
+		com = &x.Call
+	default:
+		return "", false
+	}
+	g := com.StaticCallee()
+	if g == nil || g.Pkg == nil || g.Pkg.Pkg.Path() != "sync" || len(com.Args) == 0 {
+		return "", false
+	}
+	hit := false
+	for _, n := range names {
+		if g.Name() == n {
+			hit = true
+		}
+	}
+	if !hit {
+		return "", false
+	}
+	return describeValue(com.Args[0]), true
+}
+
+var ruleLockL7 = &Rule{
+	Name:    "LOCK/L7-release-on-every-path",
+	NeedSSA: true,
+	Text:    "for every call of sync.Mutex.Lock / sync.RWMutex.Lock / RLock in a function of the module: every path from the call to a return of that function passes an Unlock / RUnlock on the same mutex expression, or a defer of one (backward must-analysis on the SSA control-flow graph; panics are not exits of interest) — a path that returns with an analysis mutex held blocks the next request for ever (a hang is as fatal as a crash)",
+	Run: func(c *Ctx) []Ob {
+		var obs []Ob
+		n := 0
+		for _, f := range c.ModFns() {
+			cnt := map[string]int{}
+			for _, b := range f.Blocks {
+				for _, ins := range b.Instrs {
+					if _, isDefer := ins.(*ssa.Defer); isDefer {
+						continue
+					}
+					recv, ok := mutexCall(ins, "Lock", "RLock")
+					if !ok {
+						continue
+					}
+					n++
+					cnt[recv]++
+					key := fmt.Sprintf("LOCK/L7:%s:%s#%d", fnKey(f), recv, cnt[recv])
+					lock := ins
+					bad := mustFollow(f, func(i ssa.Instruction) bool { return i == lock }, func(i ssa.Instruction) bool {
+						r, ok := mutexCall(i, "Unlock", "RUnlock")
+						return ok && r == recv
+					})
+					if len(bad) == 0 {
+						obs = append(obs, Ob{Key: key, Site: c.Pos(ins.Pos()), Verdict: OK})
+					} else {
+						obs = append(obs, Ob{Key: key, Site: c.Pos(ins.Pos()), Verdict: VIOLATION,
+							Note: "some path from this Lock returns without releasing " + recv + ": the next caller that needs the mutex blocks for ever"})
+					}
+				}
+			}
+		}
+		c.Stats["mutex_lock_sites"] = n
+		obs = append(obs, floor("LOCK/L7-release-on-every-path", "Lock / RLock call sites in the module", n, 12))
+		return obs
+	},
+}
+
+// ---------------------------------------------------------------------------------------------
+// KEY/M8: the map whose bucket is tested is the map the new bucket is put into
+
+var ruleKeyM8 = &Rule{
+	Name:    "KEY/M8-test-and-insert-same-map",
+	NeedSSA: true,
+	Text:    "get-or-create on a struct-field map of maps: where a branch tests the presence of a bucket with `v, ok := F[k]` and the not-found side stores a new bucket under the same key value k into a struct-field map of the same type, that map is F itself — testing one index and creating the bucket in its sibling (fileNameMap / freFileNameMap) replaces the sibling's bucket on every insertion, so only the last file of a name survives in it",
+	Run: func(c *Ctx) []Ob {
+		var obs []Ob
+		n := 0
+		for _, f := range c.ModFns() {
+			cnt := 0
+			for _, b := range f.Blocks {
+				iff, ok := b.Instrs[len(b.Instrs)-1].(*ssa.If)
+				if !ok {
+					continue
+				}
+				e := stripNot(condEdge{iff.Cond, true})
+				ex, ok := e.cond.(*ssa.Extract)
+				if !ok || ex.Index != 1 {
+					continue
+				}
+				lk, ok := ex.Tuple.(*ssa.Lookup)
+				if !ok || !lk.CommaOk {
+					continue
+				}
+				// the map is a struct field, or — in a helper the get-or-create was moved into — a map parameter
+				type morigin struct {
+					id, owner string
+					t         types.Type
+				}
+				originOf := func(m ssa.Value) (morigin, bool) {
+					if fld, owner, nest, ok := mapOrigin(m, 0); ok && nest == 0 {
+						return morigin{owner + "." + fld.Name(), owner, fld.Type()}, true
+					}
+					if pm, ok := m.(*ssa.Parameter); ok {
+						return morigin{"parameter " + pm.Name(), "parameters of " + f.Name(), pm.Type()}, true
+					}
+					return morigin{}, false
+				}
+				o1, ok := originOf(lk.X)
+				if !ok {
+					continue
+				}
+				mt, isMap := o1.t.Underlying().(*types.Map)
+				if !isMap {
+					continue
+				}
+				if _, isMapOfMap := mt.Elem().Underlying().(*types.Map); !isMapOfMap {
+					continue
+				}
+				// the not-found side
+				miss := b.Succs[1]
+				if !e.truth {
+					miss = b.Succs[0]
+				}
+				// blocks dominated by the not-found side
+				for _, mb := range f.Blocks {
+					if !miss.Dominates(mb) {
+						continue
+					}
+					for _, ins := range mb.Instrs {
+						mu, ok := ins.(*ssa.MapUpdate)
+						if !ok || mu.Key != lk.Index {
+							continue
+						}
+						o2, ok := originOf(mu.Map)
+						if !ok || o2.owner != o1.owner || !types.Identical(o2.t, o1.t) {
+							continue
+						}
+						n++
+						cnt++
+						short := o1.id[strings.LastIndex(o1.id, ".")+1:]
+						key := fmt.Sprintf("KEY/M8:%s:%s#%d", fnKey(f), short, cnt)
+						if o2.id == o1.id {
+							obs = append(obs, Ob{Key: key, Site: c.Pos(mu.Pos()), Verdict: OK})
+						} else {
+							obs = append(obs, Ob{Key: key, Site: c.Pos(mu.Pos()), Verdict: VIOLATION,
+								Note: fmt.Sprintf("the bucket is looked up in %s but, when it is missing, created in %s under the same key: the lookup (almost) never hits and every insertion replaces the bucket of %s", o1.id, o2.id, o2.id)})
+						}
+					}
+				}
+			}
+		}
+		c.Stats["get_or_create_sites"] = n
+		obs = append(obs, floor("KEY/M8-test-and-insert-same-map", "get-or-create sites on struct-field maps of maps", n, 2))
+		return obs
+	},
+}
+
+// ---------------------------------------------------------------------------------------------
+// SCOPE/S12: the saved scope is put back only after the scope was closed
+
+var ruleScopeS12 = &Rule{
+	Name:    "SCOPE/S12-restore-after-exit",
+	NeedSSA: true,
+	Text:    "in every analysis function that calls exitScope(): a store that puts a saved scope back into Analysis.curScope (the stored value is an earlier load of curScope) is preceded, on every path from the function's entry, by an exitScope() call — exitScope sweeps the scope curScope points at (unused locals, pending uses), so restoring first sweeps the enclosing scope and never the block's own",
+	Run: func(c *Ctx) []Ob {
+		var obs []Ob
+		n := 0
+		isExit := func(i ssa.Instruction) bool {
+			call, ok := i.(*ssa.Call)
+			if !ok {
+				return false
+			}
+			g := call.Call.StaticCallee()
+			return g != nil && (g.Name() == "exitScope" || g.Name() == "ExitScope")
+		}
+		for _, f := range c.ModFns() {
+			if f.Pkg == nil || !strings.HasSuffix(f.Pkg.Pkg.Path(), "/check/analysis") {
+				continue
+			}
+			has := false
+			for _, b := range f.Blocks {
+				for _, ins := range b.Instrs {
+					if isExit(ins) {
+						has = true
+					}
+				}
+			}
+			if !has {
+				continue
+			}
+			isRestore := func(i ssa.Instruction) bool {
+				st, ok := i.(*ssa.Store)
+				if !ok {
+					return false
+				}
+				fa, ok := st.Addr.(*ssa.FieldAddr)
+				if !ok || fieldName(fa.X.Type(), fa.Field) != "curScope" {
+					return false
+				}
+				ld, ok := st.Val.(*ssa.UnOp)
+				if !ok || ld.Op != token.MUL {
+					return false
+				}
+				fa2, ok := ld.X.(*ssa.FieldAddr)
+				return ok && fieldName(fa2.X.Type(), fa2.Field) == "curScope"
+			}
+			any := false
+			for _, b := range f.Blocks {
+				for _, ins := range b.Instrs {
+					if isRestore(ins) {
+						any = true
+					}
+				}
+			}
+			if !any {
+				continue
+			}
+			n++
+			key := "SCOPE/S12:" + f.Name()
+			bad := mustPrecede(f, isExit, isRestore)
+			if len(bad) == 0 {
+				obs = append(obs, Ob{Key: key, Site: c.Pos(f.Pos()), Verdict: OK})
+			} else {
+				obs = append(obs, Ob{Key: key, Site: c.Pos(bad[0].Pos()), Verdict: VIOLATION,
+					Note: f.Name() + " puts the saved scope back into curScope on a path on which exitScope() has not run yet: the sweep at the end of the block then works on the enclosing scope"})
+			}
+		}
+		obs = append(obs, floor("SCOPE/S12-restore-after-exit", "functions that close a scope and restore the saved one", n, 6))
+		return obs
+	},
+}
+
+// ---------------------------------------------------------------------------------------------
+// ANN/A8: an element is removed from index-paired lists together
+
+var ruleAnnA8 = &Rule{
+	Name:    "ANN/A8-paired-removal",
+	NeedSSA: true,
+	Text:    "two slice fields of one struct are index-paired when some function of the module indexes both with the same index value (for i, s := range f.Stats { … f.Lines[i] … }). Wherever an element is cut out of one of them (the field is assigned append(F[:i], F[j:]...) built from itself), the same block cuts the paired field too — otherwise every later entry is paired with its predecessor's partner (a dropped annotation must not disturb its neighbours)",
+	Run: func(c *Ctx) []Ob {
+		var obs []Ob
+		fieldOfSlice := func(v ssa.Value) (*types.Var, ssa.Value) {
+			// v is a load of a slice field (possibly resliced)
+			for i := 0; i < 3; i++ {
+				if sl, ok := v.(*ssa.Slice); ok {
+					v = sl.X
+					continue
+				}
+				break
+			}
+			ld, ok := v.(*ssa.UnOp)
+			if !ok || ld.Op != token.MUL {
+				return nil, nil
+			}
+			fa, ok := ld.X.(*ssa.FieldAddr)
+			if !ok || !isSliceT(fieldOf(fa).Type()) {
+				return nil, nil
+			}
+			return fieldOf(fa), fa.X
+		}
+		paired := map[*types.Var]map[*types.Var]bool{}
+		for _, f := range c.ModFns() {
+			byIdx := map[ssa.Value][]*types.Var{}
+			for _, b := range f.Blocks {
+				for _, ins := range b.Instrs {
+					ia, ok := ins.(*ssa.IndexAddr)
+					if !ok {
+						continue
+					}
+					if _, isConst := ia.Index.(*ssa.Const); isConst {
+						continue
+					}
+					if fv, _ := fieldOfSlice(ia.X); fv != nil {
+						byIdx[ia.Index] = append(byIdx[ia.Index], fv)
+					}
+				}
+			}
+			for _, fs := range byIdx {
+				for _, a := range fs {
+					for _, b := range fs {
+						if a != b && a.Pkg() == b.Pkg() {
+							if paired[a] == nil {
+								paired[a] = map[*types.Var]bool{}
+							}
+							paired[a][b] = true
+						}
+					}
+				}
+			}
+		}
+		// removal sites
+		cutOf := func(ins ssa.Instruction) *types.Var {
+			st, ok := ins.(*ssa.Store)
+			if !ok {
+				return nil
+			}
+			fa, ok := st.Addr.(*ssa.FieldAddr)
+			if !ok || !isSliceT(fieldOf(fa).Type()) {
+				return nil
+			}
+			call := appendCall(st.Val)
+			if call == nil || len(call.Call.Args) < 2 {
+				return nil
+			}
+			sl, ok := call.Call.Args[0].(*ssa.Slice)
+			if !ok || sl.High == nil {
+				return nil
+			}
+			if fv, _ := fieldOfSlice(sl); fv != fieldOf(fa) {
+				return nil
+			}
+			if fv2, _ := fieldOfSlice(call.Call.Args[1]); fv2 != fieldOf(fa) {
+				return nil
+			}
+			return fieldOf(fa)
+		}
+		n := 0
+		for _, f := range c.ModFns() {
+			cnt := 0
+			for _, b := range f.Blocks {
+				cuts := map[*types.Var]bool{}
+				var first = map[*types.Var]ssa.Instruction{}
+				for _, ins := range b.Instrs {
+					if fv := cutOf(ins); fv != nil {
+						cuts[fv] = true
+						if first[fv] == nil {
+							first[fv] = ins
+						}
+					}
+				}
+				for fv := range cuts {
+					if len(paired[fv]) == 0 {
+						continue
+					}
+					var partners []string
+					missing := ""
+					for p := range paired[fv] {
+						partners = append(partners, p.Name())
+						if !cuts[p] {
+							missing = p.Name()
+						}
+					}
+					sort.Strings(partners)
+					n++
+					cnt++
+					key := fmt.Sprintf("ANN/A8:%s:%s#%d", fnKey(f), fv.Name(), cnt)
+					if missing == "" {
+						obs = append(obs, Ob{Key: key, Site: c.Pos(first[fv].Pos()), Verdict: OK, Note: "cut together with " + strings.Join(partners, ", ")})
+					} else {
+						obs = append(obs, Ob{Key: key, Site: c.Pos(first[fv].Pos()), Verdict: VIOLATION,
+							Note: fmt.Sprintf("an element is cut out of %s but not out of %s, which is indexed with the same positions elsewhere: every later entry is paired with the wrong partner", fv.Name(), missing)})
+					}
+				}
+			}
+		}
+		c.Stats["paired_list_removals"] = n
+		obs = append(obs, floor("ANN/A8-paired-removal", "removals from index-paired lists", n, 1))
+		return obs
+	},
+}
